@@ -24,7 +24,7 @@ Laws(R) ==
       \* transitivity of <= : C(i,j) <= 0 /\ C(j,k) <= 0 => C(i,k) <= 0
       trans   == { <<i, j, k>> \in N \X N \X N : C(i, j) <= 0 /\ C(j, k) <= 0 /\ C(i, k) > 0 }
       Pick(S) == IF S = {} THEN <<>> ELSE LET x == CHOOSE x \in S : TRUE IN
-                 IF x \in N THEN <<R.names[x]>> ELSE [q \in DOMAIN x |-> R.names[x[q]]]
+                 [q \in DOMAIN x |-> R.names[x[q]]]      \* S is a set of pairs / triples of indices
   IN [refl |-> Cardinality(refl), antisym |-> Cardinality(antisym), eqcons |-> Cardinality(eqcons),
       hash |-> Cardinality(hashc), eqsym |-> Cardinality(eqsym), trans |-> Cardinality(trans),
       w_antisym |-> Pick(antisym), w_eqcons |-> Pick(eqcons), w_hash |-> Pick(hashc), w_trans |-> Pick(trans),
